@@ -644,7 +644,7 @@ PROPS = {
         assumptions=['the interleaving part of the quantifier (Write racing Close in another goroutine) is modelled by the single close-sent flag consulted under writeFrameMu; see C05'],
         level_text='Theorems: C16_nothing_after_close (every sequential program) and C16_all_interleavings (every schedule of any number of writers, pingers, closers, the read side echoing/answering with a Close, '
                    'outside closes): only Pings/Pongs follow a Close frame on the wire. Tie: the library\'s recorded frames against echoing peers, sequential histories incl. protocol-error closes.',
-        level_note='sequential Writer model theorem + all-interleavings theorem on Model/Sched.v (close-sent flag read and set under the frame lock).',
+        level_note='sequential Writer model theorem + all-interleavings theorem on Model/Sched.v (close-sent flag read and set under the frame lock) + C16_reader_at_most_one_close: for ANY input bytes and read script the read side (protocol-error closes, limit closes, echo) writes at most one Close frame and only Pongs around it.',
         technique='Coq proof (invariant over operation sequences) + differential run against a recording raw peer',
     ),
     'C03': dict(
